@@ -176,6 +176,11 @@ fn constvalue_json<'tcx>(tcx: TyCtxt<'tcx>, cv: ConstValue, ty: Ty<'tcx>, depth:
                         }
                     }
                 }
+                // a reference to a `static` item: name it, so that the analysis knows which functions touch which global
+                let (prov, _off) = ptr.prov_and_relative_offset();
+                if let Some(rustc_middle::mir::interpret::GlobalAlloc::Static(sdid)) = tcx.try_get_global_alloc(prov.alloc_id()) {
+                    return o(vec![("ptr", s(ty)), ("static", s(pretty_path(tcx, sdid)))]);
+                }
                 o(vec![("ptr", s(ty))])
             }
             ty::RawPtr(..) => o(vec![("ptr", s(ty))]),
@@ -714,7 +719,9 @@ fn const_item_json<'tcx>(tcx: TyCtxt<'tcx>, did: DefId) -> Option<J> {
     }
     let ty = tcx.type_of(did).instantiate_identity().skip_norm_wip();
     let inst = Instance::mono(tcx, did);
-    let val = eval_global(tcx, inst, None, ty);
+    // a `static` (e.g. a `OnceLock` holding a lazily compiled regex) has no value tree: the const-eval query for values must not be
+    // asked about it (it asserts); its existence and type are recorded, which is all the rules use
+    let val = if matches!(tcx.def_kind(did), DefKind::Static { .. }) { o(vec![("novaltree", s(ty))]) } else { eval_global(tcx, inst, None, ty) };
     Some(o(vec![
         ("path", s(pretty_path(tcx, did))),
         ("item_kind", s(format!("{:?}", tcx.def_kind(did)))),
